@@ -814,6 +814,8 @@ CO_ERR COSdoUploadBlock(CO_SDO *srv)
                 txBuf++;
                 txNum--;
             }
+            /* refill the space of the acknowledged segments only */
+            num = byteOk;
         } else {
             /* repeat whole buffer (no remaining bytes needed) */
             num = 0u;
